@@ -480,6 +480,9 @@ func (k *Runner) expand(c *Codec, seeds []seedRec) {
 				in = append(in, p.bytes...)
 				in = append(in, enc[pos+p.replace:]...)
 				k.add(job{c: c, k: kBlow, in: in, seed: si, n: pos, note: p.name}, seeds)
+				if k.tripped[c.Name] {
+					break
+				}
 			}
 		}
 		k.flushWith(seeds)
@@ -557,6 +560,7 @@ func (k *Runner) flushWith(seeds []seedRec) {
 		return
 	}
 	b := k.batch
+	k.noteBatch(b, seeds)
 	total := k.measure(func() {
 		for i := range b {
 			b[i].v, b[i].err, b[i].pan = safeDecode(b[i].c, b[i].in)
@@ -685,6 +689,7 @@ func (k *Runner) replay(codecs []*Codec, rf *ev.ReplayFile) {
 				si = 0
 			}
 			j := job{c: c, k: kk, in: in, seed: si, n: p.N, note: p.Label}
+			k.noteBatch([]job{j}, seeds)
 			j.alloc = k.measure(func() { j.v, j.err, j.pan = safeDecode(c, in) })
 			fmt.Printf("replay %s %s input=%s -> value=%s err=%v panic=%v alloc=%d\n", c.Name, p.Kind, hexs(in), short(j.v), j.err, j.pan, j.alloc)
 			if j.alloc > Ceiling(len(in)) {
